@@ -20,18 +20,24 @@ echo "SUITE(with change): $suite"
 echo "DEMO(with change): $with"
 echo "DEMO(without): $without"
 mkdir -p /verif/seeded/$NAME && cp "$S/patch.diff" "$S/demo.diff" "$S/README.md" /verif/seeded/$NAME/
-# run my checks against the change
+# run my checks against the change (in the scratch copy when USE_MUT=1, so that /repo stays untouched)
 cd /verif
-[ -z "$(git -C /repo status --porcelain)" ] || { echo "/repo not clean"; exit 4; }
-git -C /repo apply /verif/seeded/$NAME/patch.diff || { echo "patch does not apply to /repo"; exit 4; }
 RES=""
-for p in $PROPS; do
-  out=$(./check $p --tier quick 2>&1); rc=$?
-  RES="$RES $p:rc=$rc"
-  echo "CHECK $p rc=$rc $(echo "$out" | grep -E '^VIOLATION' | head -1)"
-  echo "$out" | grep -vE "^\[C|^VIOLATION|^KNOWN" | head -2
-done
-git -C /repo checkout -- .
+if [ -n "${USE_MUT:-}" ]; then
+  out=$(./tools/mut_check.sh /verif/seeded/$NAME/patch.diff $PROPS)
+  echo "$out"
+  RES=$(echo "$out" | grep "^CHECK" | sed 's/CHECK \(C[0-9]*\) rc=\([0-9]*\)/\1:rc=\2/' | tr '\n' ' ')
+else
+  [ -z "$(git -C /repo status --porcelain)" ] || { echo "/repo not clean"; exit 4; }
+  git -C /repo apply /verif/seeded/$NAME/patch.diff || { echo "patch does not apply to /repo"; exit 4; }
+  for p in $PROPS; do
+    out=$(./check $p --tier quick 2>&1); rc=$?
+    RES="$RES $p:rc=$rc"
+    echo "CHECK $p rc=$rc $(echo "$out" | grep -E '^VIOLATION' | head -1)"
+    echo "$out" | grep -vE "^\[C|^VIOLATION|^KNOWN" | head -2
+  done
+  git -C /repo checkout -- .
+fi
 python3 - "$NAME" "$FILTER" "$suite" "$with" "$without" "$RES" <<'PY'
 import json,sys
 id,flt,suite,w,wo,res=sys.argv[1:7]
